@@ -572,6 +572,31 @@ def _complements(model, rep):
             return ("unique", args[0])
         return NotImplemented
 
+    class Other:
+        """a value computed some other way: never equal to the expected
+        construction, so the comparison reports it"""
+        skv_isarray = True
+
+        def __init__(self, text):
+            self.text = text
+
+        def skv_getattr(self, name):
+            return PyFunc(lambda a, k, n: Other(f"{self.text}.{name}(..)"))
+
+        def skv_getitem(self, ix):
+            return Other(f"{self.text}[..]")
+
+        def __repr__(self):
+            return self.text
+
+    def lenient_hook(interp, name, args, kwargs, node):
+        r = hook(interp, name, args, kwargs, node)
+        if r is NotImplemented and name.startswith("numpy."):
+            res = Other(name.split(".", 1)[1] + "(..)")
+            return (res,) if name in ("numpy.nonzero", "numpy.where") \
+                else res
+        return r
+
     class Tab:
         def __init__(self, name, shape):
             self.name, self.shape = name, shape
@@ -596,11 +621,18 @@ def _complements(model, rep):
                 "p": Tab("p", (3, NV)), "facets": Tab("facets", (3, NF)),
                 "edges": Tab("edges", (2, NE)), "nvertices": NV,
                 "nfacets": NF, "nedges": NE,
-                f"boundary_{kind}": PyFunc(lambda a, k, n, kind=kind:
-                                           f"BOUNDARY:{kind}")})
+                "doflocs": Tab("p", (3, NV)),
+                "t": Tab("t", (4, Poly.sym("nelements")))})
+            for k2 in ("nodes", "facets", "edges"):
+                obj.attrs[f"boundary_{k2}"] = PyFunc(
+                    lambda a, k, n, k2=k2: f"BOUNDARY:{k2}")
+                if k2 != kind:
+                    obj.attrs[f"interior_{k2}"] = PyFunc(
+                        lambda a, k, n, k2=k2: f"INTERIOR:{k2}")
             try:
-                r = Interp(model, call_hook=hook).call(m, [], {},
-                                                       self_obj=obj)
+                it_ = Interp(model, call_hook=lenient_hook)
+                it_.lenient_attrs = True
+                r = it_.call(m, [], {}, self_obj=obj)
             except (Unsupported, Raised) as e:
                 raise AnalysisError(f"{m.short()}: {e}")
             ok = (isinstance(r, tuple) and r[0] == "setdiff"
@@ -617,15 +649,31 @@ def _complements(model, rep):
     mcls = model.cls(MESH, "Mesh")
     fn = mcls.methods["boundary_nodes"]
     obj = Obj(mcls, {"facets": Tab("facets", (3, NF)),
+                     "p": Tab("p", (3, NV)), "doflocs": Tab("p", (3, NV)),
+                     "t": Tab("t", (4, Poly.sym("nelements"))),
+                     "edges": Tab("edges", (2, NE)),
                      "boundary_facets": PyFunc(lambda a, k, n: "BF")})
-    try:
-        r = Interp(model, call_hook=hook).call(fn, [], {}, self_obj=obj)
-    except (Unsupported, Raised) as e:
-        raise AnalysisError(f"boundary_nodes: {e}")
-    _v(rep, R4, r == ("unique", ("cols", "facets", (slice(None), "BF"))),
-       "Mesh.boundary_nodes", "unique vertices of the boundary facets",
-       "Mesh.boundary_nodes", f"boundary vertices computed as {r!r}, not "
-       f"the vertices of the boundary facets", fn.lineno)
+    defs = [(c, c.methods["boundary_nodes"]) for c in model.all_classes()
+            if c.path.startswith("skfem/mesh/")
+            and "boundary_nodes" in c.methods]
+    if not any(c is mcls for c, _ in defs):
+        raise AnalysisError("Mesh.boundary_nodes not found")
+    for c, f_ in defs:
+        o_ = Obj(c, dict(obj.attrs))
+        try:
+            it_ = Interp(model, call_hook=lenient_hook)
+            it_.lenient_attrs = True
+            r = it_.call(f_, [], {}, self_obj=o_)
+        except (Unsupported, Raised) as e:
+            raise AnalysisError(f"{f_.short()}: {e}")
+        _v(rep, R4, r == ("unique", ("cols", "facets", (slice(None), "BF"))),
+           f"{c.name}.boundary_nodes",
+           "unique vertices of the boundary facets", f_.short(),
+           f"boundary vertices computed as {r!r}, not the vertices of the "
+           f"boundary facets (a class-specific shortcut - e.g. 'the two "
+           f"extreme points' of a 1-D mesh - misses the end points of "
+           f"further components, which interior_nodes() then reports as "
+           f"interior)", f_.lineno, f_.path)
     fn = mcls.methods["boundary_facets"]
 
 
@@ -832,6 +880,20 @@ def run(model: Model, rep, tier: str) -> None:
 
 _R = "skfem/refdom.py"
 MUTANTS = [
+    ("interior edges of 3-D meshes defined as 'touching an interior vertex'",
+     ("skfem/mesh/mesh_3d.py",
+      "        return np.setdiff1d(np.arange(self.edges.shape[1], "
+      "dtype=np.int32),\n                            self.boundary_edges())",
+      "        inside = np.isin(self.edges, self.interior_nodes()).any("
+      "axis=0)\n        return np.nonzero(inside)[0].astype(np.int32)"),
+     "C11-R4"),
+    ("1-D meshes report only their two extreme points as boundary",
+     ("skfem/mesh/mesh_line_1.py", "    def element_finder(self, "
+      "mapping=None):\n\n        ix = np.argsort(self.p[0])",
+      "    def boundary_nodes(self):\n        return np.array([np.argmin("
+      "self.p[0]), np.argmax(self.p[0])],\n                        "
+      "dtype=np.int32)\n\n    def element_finder(self, mapping=None):\n\n"
+      "        ix = np.argsort(self.p[0])"), "C11-R4"),
     ("boundary edges of 3-D meshes enumerated over dim() facet vertices",
      ("skfem/mesh/mesh_3d.py",
       "                   for itr in range(self.facets.shape[0])])).T, "
